@@ -116,12 +116,13 @@ Definition name_ok (name : text) : Prop := name <> [] /\ rstrip name = name.
 (* any fact list the server can emit, followed by any name, is parsed back exactly *)
 Lemma parse_mlsx_facts facts name :
   facts <> [] -> Forall (fun kv => clean (fst kv) /\ clean (snd kv)) facts -> name_ok name ->
-  parse_mlsx_line (flat_map fact_text facts ++ [SP] ++ name) = (name, entry_of facts).
+  parse_mlsx_line (flat_map fact_text facts ++ [SP] ++ name) = Ok (name, entry_of facts).
 Proof.
   intros Hne F [Nn Nr]. unfold parse_mlsx_line.
   rewrite (rstrip_app_nonempty _ ([SP] ++ name)).
   - change ([SP] ++ name) with (SP :: name).
     rewrite (partition_app SP _ name (flat_facts_avoid_space facts F)).
+    cbn [negb orb]. destruct name as [|c name']; [contradiction|].
     rewrite (split_facts facts Hne F). rewrite (fold_bodies facts [] F). reflexivity.
   - discriminate.
   - change ([SP] ++ name) with ([SP] ++ name). apply rstrip_app_nonempty; assumption.
@@ -157,10 +158,10 @@ Proof. vm_compute. repeat split; reflexivity. Qed.
 Theorem mlsx_roundtrip st kind name :
   name_ok name ->
   parse_mlsx_line (build_mlsx_string (Some st) kind name)
-  = (name, [ (l_size, str_of_Z (st_size st));
-             (l_create, format_mlsx_time (st_ctime st));
-             (l_modify, format_mlsx_time (st_mtime st));
-             (l_type, kind_text kind) ]).
+  = Ok (name, [ (l_size, str_of_Z (st_size st));
+                (l_create, format_mlsx_time (st_ctime st));
+                (l_modify, format_mlsx_time (st_mtime st));
+                (l_type, kind_text kind) ]).
 Proof.
   intro N. rewrite build_mlsx_string_eq.
   rewrite parse_mlsx_facts; [|discriminate|apply mlsx_facts_clean|exact N].
@@ -169,7 +170,7 @@ Qed.
 
 Theorem mlsx_roundtrip_missing kind name :
   name_ok name ->
-  parse_mlsx_line (build_mlsx_string None kind name) = (name, [ (l_type, kind_text kind) ]).
+  parse_mlsx_line (build_mlsx_string None kind name) = Ok (name, [ (l_type, kind_text kind) ]).
 Proof.
   intro N. rewrite build_mlsx_string_eq.
   rewrite parse_mlsx_facts; [|discriminate|apply mlsx_facts_clean|exact N].
@@ -221,24 +222,32 @@ Qed.
 Definition entry_name_ok (name : text) : Prop :=
   name_ok name /\ name <> DOT /\ name <> DOTDOT.
 
-(* every directory entry exactly once, in order, none invented, with its own facts *)
+(* the MLSD worker's lines, parsed one by one: every directory entry exactly once, in order, none
+   invented, each with its own facts *)
 Theorem mlsd_entries_exact dir :
   Forall (fun e => entry_name_ok (de_name e)) dir ->
-  client_mlsd (mlsd_lines dir)
-  = map (fun e => (de_name e, entry_of (mlsx_facts (de_stat e) (de_kind e)))) dir.
+  map parse_mlsx_line (mlsd_lines dir)
+  = map (fun e => Ok (de_name e, entry_of (mlsx_facts (de_stat e) (de_kind e)))) dir.
 Proof.
-  induction 1 as [|e rest [N [N1 N2]] _ IH]; [reflexivity|].
-  unfold client_mlsd, mlsd_lines in *. cbn [map].
+  induction 1 as [|e rest [N _] _ IH]; [reflexivity|].
+  unfold mlsd_lines in *. cbn [map]. rewrite IH. f_equal.
   rewrite build_mlsx_string_eq.
-  rewrite parse_mlsx_facts; [|unfold mlsx_facts; destruct (de_stat e); discriminate|apply mlsx_facts_clean|exact N].
-  cbn [filter fst].
-  destruct (text_eqb (de_name e) DOT) eqn:E1; [apply text_eqb_eq in E1; contradiction|].
-  destruct (text_eqb (de_name e) DOTDOT) eqn:E2; [apply text_eqb_eq in E2; contradiction|].
-  cbn [orb negb]. f_equal. exact IH.
+  apply parse_mlsx_facts; [unfold mlsx_facts; destruct (de_stat e); discriminate|apply mlsx_facts_clean|exact N].
+Qed.
+
+(* a line without SP, or with nothing after it, is a ValueError (not an entry called '.') *)
+Lemma mlsx_no_name_rejected s :
+  (forallb (fun x => negb (x =? SP)) (rstrip s) = true \/ exists f, rstrip s = f ++ [SP] /\ forallb (fun x => negb (x =? SP)) f = true) ->
+  parse_mlsx_line s = Err E_VALUE.
+Proof.
+  intros [H|[f [E H]]]; unfold parse_mlsx_line.
+  - rewrite (partition_none SP _ H). reflexivity.
+  - rewrite E. change (f ++ [SP]) with (f ++ SP :: []). rewrite (partition_app SP f [] H). reflexivity.
 Qed.
 
 (* ---------------- LIST ---------------- *)
-(* modes whose nine permission letters contain neither 'S' nor 'T' *)
+(* modes whose nine permission letters contain neither 'S' nor 'T' (only used to describe the
+   repaired defect F13b; no theorem needs it any more) *)
 Definition no_ST (mode : Z) : bool :=
   negb (bit mode 11 && negb (bit mode 6)) && negb (bit mode 10 && negb (bit mode 3))
   && negb (bit mode 9 && negb (bit mode 0)).
@@ -256,9 +265,9 @@ Definition res_Z_eqb (a b : res Z) : bool :=
   | _, _ => false
   end.
 
+(* all 4096 permission values, S/T included *)
 Lemma mode_sweep :
-  forallb (fun p => if no_ST p then res_Z_eqb (parse_unix_mode (perm_chars p)) (Ok (mode_view p))
-                    else res_Z_eqb (parse_unix_mode (perm_chars p)) (Err E_VALUE))
+  forallb (fun p => res_Z_eqb (parse_unix_mode (perm_chars p)) (Ok (mode_view p)))
           (zrange 0 (Z.to_nat 4096)) = true.
 Proof. vm_compute. reflexivity. Qed.
 
@@ -268,31 +277,21 @@ Proof. intro H. unfold bit. change 4096 with (2 ^ 12). apply Z.mod_pow2_bits_low
 Lemma perm_chars_mod mode : perm_chars (mode mod 4096) = perm_chars mode.
 Proof. unfold perm_chars. rewrite !bit_mod by lia. reflexivity. Qed.
 
-Lemma parse_perm_chars mode :
-  no_ST mode = true -> parse_unix_mode (perm_chars mode) = Ok (mode_view mode).
+Lemma parse_perm_chars mode : parse_unix_mode (perm_chars mode) = Ok (mode_view mode).
 Proof.
-  intro H. pose proof (Z.mod_pos_bound mode 4096 ltac:(lia)) as B.
+  pose proof (Z.mod_pos_bound mode 4096 ltac:(lia)) as B.
   pose proof (forallb_zrange _ _ _ mode_sweep (mode mod 4096) ltac:(lia)) as S. cbv beta in S.
-  assert (N : no_ST (mode mod 4096) = no_ST mode) by (unfold no_ST; rewrite !bit_mod by lia; reflexivity).
   assert (V : mode_view (mode mod 4096) = mode_view mode).
   { unfold mode_view. rewrite !bit_mod by lia. rewrite Z.mod_mod by lia. reflexivity. }
-  rewrite N, H, perm_chars_mod, V in S.
+  rewrite perm_chars_mod, V in S.
   destruct (parse_unix_mode (perm_chars mode)) as [x|x]; cbn in S; [|discriminate].
   apply Z.eqb_eq in S. congruence.
 Qed.
 
-Lemma parse_perm_chars_ST mode :
-  no_ST mode = false -> parse_unix_mode (perm_chars mode) = Err E_VALUE.
-Proof.
-  intro H. pose proof (Z.mod_pos_bound mode 4096 ltac:(lia)) as B.
-  pose proof (forallb_zrange _ _ _ mode_sweep (mode mod 4096) ltac:(lia)) as S. cbv beta in S.
-  assert (N : no_ST (mode mod 4096) = no_ST mode) by (unfold no_ST; rewrite !bit_mod by lia; reflexivity).
-  rewrite N, H, perm_chars_mod in S.
-  destruct (parse_unix_mode (perm_chars mode)) as [x|x]; cbn in S; [discriminate|].
-  apply Z.eqb_eq in S. congruence.
-Qed.
+(* the permission bits survive exactly unless both sticky and others-execute are set *)
+Lemma mode_view_exact mode : (bit mode 9 && bit mode 0) = false -> mode_view mode = mode mod 4096.
+Proof. intro H. unfold mode_view. rewrite H. reflexivity. Qed.
 
-(* fields *)
 Lemma index_of_app f r : avoids SP f -> index_of SP (f ++ SP :: r) = Some (length f).
 Proof.
   unfold avoids. induction f as [|x f IH]; cbn; intro H.
@@ -394,7 +393,6 @@ Proof. intro H. change (skipn 10 (c :: p ++ r)) with (skipn 9 (p ++ r)). apply s
    type, size, link count and the date column handed to parse_ls_date *)
 Theorem list_roundtrip half two now st ds name modify :
   (filetype_char (st_mode st) = 45 \/ filetype_char (st_mode st) = 100) ->
-  no_ST (st_mode st) = true ->
   0 <= st_nlink st -> 0 <= st_size st ->
   length ds = 12%nat -> strip_fixed ds -> strip_fixed name ->
   parse_ls_date half two ds now = Some modify ->
@@ -402,7 +400,7 @@ Theorem list_roundtrip half two now st ds name modify :
   = Ok (name, mklinfo (type_of_char (filetype_char (st_mode st))) (mode_view (st_mode st))
                       (str_of_Z (st_nlink st)) t_none t_none (str_of_Z (st_size st)) modify None).
 Proof.
-  intros Hty HST Hnl Hsz Hlen Hds Hname Hdate.
+  intros Hty Hnl Hsz Hlen Hds Hname Hdate.
   destruct st as [size ct mt nlink mode]. cbn [st_mode st_nlink st_size] in *.
   rewrite list_line_shape. unfold parse_list_line_unix.
   set (tail5 := ds ++ SP :: name).
@@ -422,7 +420,7 @@ Proof.
       repeat (rewrite <- ?app_assoc; cbn [app]). reflexivity. }
   rewrite R. clear R. cbv beta iota zeta.
   rewrite (slice_perm _ _ _ (perm_chars_length mode)), (skipn_perm _ _ _ (perm_chars_length mode)).
-  rewrite (parse_perm_chars mode HST). cbn [bind].
+  rewrite (parse_perm_chars mode). cbn [bind].
   (* link count *)
   rewrite (lstrip_cons_space SP tail1 is_space_SP).
   assert (S1 : starts_nonspace tail1) by (apply starts_nonspace_app, str_nonneg_starts; exact Hnl).
@@ -447,6 +445,7 @@ Proof.
   rewrite (firstn_exact 12 ds _ Hlen), (strip_fixed_strip ds Hds), Hdate.
   rewrite (skipn_exact 12 ds _ Hlen).
   rewrite (strip_sp_cons name Hname).
+  destruct name as [|c0 name']; [destruct Hname as [Nn _]; contradiction|].
   unfold type_of_char. destruct Hty as [-> | ->]; reflexivity.
 Qed.
 
@@ -498,7 +497,7 @@ Qed.
 (* ---------------- the whole LIST line: server formatter, then client parser ---------------- *)
 Definition plain_entry (st : stats) (name : text) : Prop :=
   (filetype_char (st_mode st) = 45 \/ filetype_char (st_mode st) = 100) /\
-  no_ST (st_mode st) = true /\ 0 <= st_nlink st /\ 0 <= st_size st /\ strip_fixed name.
+  0 <= st_nlink st /\ 0 <= st_size st /\ strip_fixed name.
 
 Definition list_info (st : stats) (modify : text) : linfo :=
   mklinfo (type_of_char (filetype_char (st_mode st))) (mode_view (st_mode st))
@@ -514,7 +513,7 @@ Theorem list_line_recent half two off now now' st name :
   parse_list_line_unix half two (client_now off now') (build_list_string half off now st name)
   = Ok (name, list_info st (format_date_time tm)).
 Proof.
-  intros C Hn Hm (Hty & HST & Hnl & Hsz & Hname) tm HY HY'.
+  intros C Hn Hm (Hty & Hnl & Hsz & Hname) tm HY HY'.
   unfold build_list_string, list_info.
   assert (C' := C). unfold consts_ok in C'. apply andb_true_iff in C' as [C' _].
   apply andb_true_iff in C' as [C1 _]. apply Z.leb_le in C1.
@@ -535,7 +534,7 @@ Theorem list_line_old_or_future half two off now nowdt st name :
   parse_list_line_unix half two nowdt (build_list_string half off now st name)
   = Ok (name, list_info st (fmt_14 (day_floor tm))).
 Proof.
-  intros C Hm (Hty & HST & Hnl & Hsz & Hname) tm HY.
+  intros C Hm (Hty & Hnl & Hsz & Hname) tm HY.
   unfold build_list_string, list_info.
   destruct (epoch_of_civil_of_epoch (st_mtime st + off)) as [_ Vm]. fold tm in Vm.
   destruct (y_text_props tm Vm HY) as [L12 SF].
@@ -545,25 +544,14 @@ Proof.
   - apply ls_date_old_or_future_text; assumption.
 Qed.
 
-(* F13b: a mode with 'S' or 'T' makes the client's own parser reject the server's line *)
-Theorem list_line_ST_rejected half two nowdt st ds name :
-  no_ST (st_mode st) = false -> name <> [] -> rstrip name = name ->
-  parse_list_line_unix half two nowdt (build_list_string_with st ds name) = Err E_VALUE.
-Proof.
-  intros HST Nn Nr. destruct st as [size ct mt nlink mode]. cbn [st_mode] in *.
-  rewrite list_line_shape. unfold parse_list_line_unix.
-  assert (R : forall tl, rstrip (filetype_char mode :: perm_chars mode ++ SP :: tl ++ SP :: name)
-                         = filetype_char mode :: perm_chars mode ++ SP :: tl ++ SP :: name).
-  { intro tl.
-    replace (filetype_char mode :: perm_chars mode ++ SP :: tl ++ SP :: name)
-      with ((filetype_char mode :: perm_chars mode ++ SP :: tl ++ [SP]) ++ name).
-    - apply rstrip_app_nonempty; assumption.
-    - cbn [app]. f_equal. repeat (rewrite <- ?app_assoc; cbn [app]). reflexivity. }
-  specialize (R (str_of_Z nlink ++ SP :: t_none ++ SP :: t_none ++ SP :: str_of_Z size ++ SP :: ds)).
-  repeat (rewrite <- ?app_assoc in R; cbn [app] in R). rewrite R. cbv beta iota zeta.
-  rewrite (slice_perm _ _ _ (perm_chars_length mode)).
-  rewrite (parse_perm_chars_ST mode HST). reflexivity.
-Qed.
+(* F13b (repaired): a set-uid file without the execute bit — the former witness — round-trips *)
+Lemma list_line_setuid_witness :
+  let st := mkstats 5 0 1717243100 1 35236 in     (* 0o104644: '-rwSr--r--' *)
+  parse_list_line_unix half_year_spec 63115200 (civil_of_epoch 1717243200)
+    (build_list_string half_year_spec 0 1717243200 st [102])
+  = Ok ([102], list_info st [50; 48; 50; 52; 48; 54; 48; 49; 49; 49; 53; 56; 48; 48])
+  /\ li_mode (list_info st []) = 2468 /\ no_ST (st_mode st) = false.   (* 0o4644 *)
+Proof. vm_compute. repeat split; reflexivity. Qed.
 
 (* F13a: leading whitespace of a name does not survive the LIST line *)
 Lemma list_leading_space_lost :
